@@ -273,6 +273,35 @@ func main() {
 			}
 		}
 	}
+	// distinct.smt2: the Go-syntax rendering (%#v) of JSON values contains no NUL byte and
+	// separates values that differ (so the NUL-joined tuple of renderings determines the
+	// tuple of values); bytes.Join is a function of the elements it is given.
+	jvals := []interface{}{nil, true, false, 0.0, 7.0, -7.0, 1.5, 1e21, "", "7", "1.5", "true", "false", "<nil>", "nil", "a", "a\x00b", "\x00", "\"a\"", "[]interface {}{}",
+		[]interface{}{}, []interface{}{"a"}, []interface{}{"a", "b"}, []interface{}{7.0}, []interface{}{"7"},
+		map[string]interface{}{}, map[string]interface{}{"a": 1.0}, map[string]interface{}{"a": "1"}}
+	for i, a := range jvals {
+		ra := fmt.Sprintf("%#v", a)
+		checked++
+		if strings.Contains(ra, "\x00") {
+			fail("gosyntax has no NUL", ra)
+		}
+		for j, b := range jvals {
+			checked++
+			if i != j && ra == fmt.Sprintf("%#v", b) {
+				fail("gosyntax separates values", ra, i, j)
+			}
+		}
+	}
+	for _, l := range lists(strs(2), 3) {
+		checked++
+		cp := make([][]byte, len(l), len(l)+3)
+		for i := range l {
+			cp[i] = append([]byte{}, l[i]...)
+		}
+		if !bytes.Equal(bytes.Join(l, sep), bytes.Join(cp, sep)) {
+			fail("join is a function of the elements", l)
+		}
+	}
 	fmt.Printf("validate_axioms: %d instances checked, %d violations\n", checked, failed)
 	if failed > 0 {
 		os.Exit(1)
